@@ -78,6 +78,17 @@ def gen_chains(cfg="ChainGen_q.cfg", timeout=600):
     return [sc for _, sc in out], run
 
 
+def sanitize(sc):
+    """dependencies between scenario dimensions (call again after changing `state` of a decorated scenario)"""
+    for inner in (sc.get("sub") or {}).values():
+        # a rerun node rebuilds the input of its aborted attempt from state: its own graph's, or (pstate) the parent's
+        if inner.get("rerun") and not inner.get("state") and not (inner.get("pstate") and sc.get("state")):
+            inner.pop("pstate", None)
+            inner["state"] = True
+    if sc.get("nilout") and not (sc.get("state") and sc.get("post")):
+        sc.pop("nilout")
+
+
 def decorate(scs, *, seed, calls_choices=(("invoke",), ("stream",), ("invoke", "stream"), ("stream", "invoke")),
              snode_frac=0.35, strm_branch_frac=0.3, noid_frac=0.0, state_frac=0.0, fail_variants=False, state_variants=False,
              delay_frac=0.5, echo_frac=0.0, wrap_frac=0.3, rmax_frac=0.0, anyout_frac=0.0, all_paradigms=False, nilout_frac=0.0):
@@ -149,11 +160,7 @@ def decorate(scs, *, seed, calls_choices=(("invoke",), ("stream",), ("invoke", "
             cand = [n for n in sc["nodes"] if n not in (sc.get("sub") or {}) and n not in sc.get("rerun", []) and n not in sc.get("echo", [])
                     and n not in sc.get("snodes", []) and not any(f["n"] == n for f in sc.get("fail", []))]
             sc["nilout"] = [n for n in cand if rnd.random() < 0.5]
-        for inner in (sc.get("sub") or {}).values():
-            # a rerun node rebuilds the input of its aborted attempt from state: its own graph's, or (pstate) the parent's
-            if inner.get("rerun") and not inner.get("state") and not (inner.get("pstate") and sc.get("state")):
-                inner.pop("pstate", None)
-                inner["state"] = True
+        sanitize(sc)
         if fail_variants and sc.get("fail"):
             # spread the failure kinds TLC does not enumerate: a second failing node in parallel, cancellation from inside a node
             r = rnd.random()
@@ -200,6 +207,33 @@ def replay(scs, *, race=False, timeout=1200, repo=None):
     return lines, wall
 
 
+class FrameworkCrash(Exception):
+    """the test process was killed by a Go runtime fatal error or an unrecovered panic raised in eino's own (non-test) code"""
+    def __init__(self, what, frame, output):
+        Exception.__init__(self, "%s in %s" % (what, frame))
+        self.what, self.frame, self.output = what, frame, output
+
+
+def framework_crash(output):
+    """(what, top eino frame) when the process died with the innermost eino frame of the faulting goroutine in non-test code"""
+    m = re.search(r"^(fatal error: [^\n]*|panic: [^\n]*)$", output, re.M)
+    if not m:
+        return None
+    blk = output[m.start():]
+    g = re.search(r"^goroutine \d+ \[[^\]]*\]:\n", blk, re.M)
+    if not g:
+        return None
+    stack = blk[g.end():].split("\n\n")[0]
+    frames = re.findall(r"^(github\.com/cloudwego/eino/\S+)\(.*\n\s+(\S+\.go):(\d+)", stack, re.M)
+    if not frames:
+        return None
+    fn, f, ln = frames[0]
+    if f.endswith("_test.go") or "zz_verif" in f:
+        return None
+    what = m.group(1)[:80]
+    return what, "%s@%s:%s" % (fn.replace("github.com/cloudwego/eino/", ""), os.path.basename(f), ln)
+
+
 def replay_concurrent(scs, *, callers=4, race=False, timeout=1500, repo=None):
     """C09: every scenario compiled once and driven by `callers` concurrent logical runs (harness TestVerifConcurrent).
     Returns (observation lines, wall seconds, raw go test output)."""
@@ -212,6 +246,10 @@ def replay_concurrent(scs, *, callers=4, race=False, timeout=1500, repo=None):
                                       env={"VERIF_CASES": cases, "VERIF_OUT": out, "VERIF_CALLERS": str(callers)})
     if race and "WARNING: DATA RACE" in output:
         return (vlib.read_lines(out) if os.path.exists(out) else []), wall, output
+    if code != 0:
+        fc = framework_crash(output)
+        if fc:
+            raise FrameworkCrash(fc[0], fc[1], output[-6000:])
     vlib.go_must_run(code, output, "concurrent replay")
     if "VERIF-CONCURRENT scenarios=%d" % len(scs) not in output:
         raise Inconclusive("concurrent replay: harness did not report all scenarios\n" + output[-3000:])
@@ -223,7 +261,7 @@ def race_reports(output):
     reps = []
     for blk in output.split("WARNING: DATA RACE")[1:]:
         blk = blk.split("==================")[0]
-        frames = re.findall(r"^\s+(github\.com/cloudwego/eino/[^\s(]+)\(.*\n\s+(\S+\.go):(\d+)", blk, re.M)
+        frames = re.findall(r"^\s+(github\.com/cloudwego/eino/\S+)\(.*\n\s+(\S+\.go):(\d+)", blk, re.M)
         own = [(fn, f, ln) for fn, f, ln in frames if not f.endswith("_test.go") and "zz_verif" not in f]
         if own:
             reps.append({"top_frame": own[0][0].replace("github.com/cloudwego/eino/", ""), "file": "%s:%s" % (os.path.basename(own[0][1]), own[0][2]), "text": blk[:1500]})
